@@ -42,10 +42,14 @@ def cases(tier, seed):
             kw.update(p_gw=1.0, gw_depths=(0.2, 0.4, 0.8, 1.2, 2.0))
         elif cls == 4:  # bunds with initial ponding above the bund height
             kw.update(p_bunds=1.0, soil_names=["Paddy", "Clay", "SiltClay", "Loam"], p_custom=0.1)
+            if i % 12 == 4:
+                kw.update(crops=["PaddyRice", "PaddyRiceGDD"], dry=True, regimes=["monsoon", "humid"], p_file=0.0)
+        elif cls == 5 and i % 12 == 5:   # net irrigation on layered soils (coarse over fine and the reverse)
+            kw.update(methods=(4,), p_custom=1.0, seasons=(1, 2), crops=["Maize", "Cotton", "Sorghum", "Sunflower", "Wheat"])
         sp = gen.config(rng, **kw)
         if cls == 2:
             sp["weather"].setdefault("params", {}).update(pwet=0.0, pstorm=0.0)
-        out.append({"spec": sp})
+        out.append({"spec": sp, "again": bool(cls == 4 and i % 2 == 0)})
     return out
 
 
@@ -77,8 +81,9 @@ def monitor(spec, res, acc):
             acc.add("above-saturation", f"step {t}: th[{i}]={th[i]!r} above saturation {sat[i]!r}"
                     + (f" (first left by {who[0]})" if who else ""),
                     dict(t=t, comp=i, th=float(th[i]), th_s=float(sat[i]), process=who))
-        m = base.mgmt_in_force(tr, s)
-        cap = base.pond_capacity(m)
+        # the bund height the *user* configured (m -> mm), not the model's own copy of it
+        um = (spec.get("fm") if s["gs"] else spec.get("ffm")) or {}
+        cap = float(um.get("z_bund", 0.0)) * 1000.0 if um.get("bunds") and float(um.get("z_bund", 0.0)) * 1000.0 > 0.001 else 0.0
         pond = s["pond1"]
         if pond < -1e-12:
             acc.add("pond-negative", f"step {t}: ponding {pond!r}", dict(t=t, pond=pond))
@@ -110,6 +115,13 @@ def run_case(case):
     res = sim.run(spec, opts=dict(ledger=True, irr=False))
     acc = base.Acc(spec)
     nt = monitor(spec, res, acc) if res.trace.steps else False
+    if case.get("again") and res.status == "ok":
+        # the same user objects in a second model: the limits are still the configured ones
+        res2 = sim.run(spec, kw=res.kw, opts=dict(ledger=True, irr=False))
+        acc.cov["executions"] += 1
+        acc.cov["second_runs_on_same_objects"] += 1
+        if res2.trace.steps:
+            monitor(spec, res2, acc)
     return base.finish(spec, res, acc, nt, instruments=("step",),
                        sample_extra={"near_sat_days": acc.cov.get("d_near_sat", 0),
                                      "near_dry_days": acc.cov.get("d_near_dry", 0)})
